@@ -5,6 +5,12 @@
 //!   c13 record --runs N --out F       seeded random configurations / names (non-ASCII, empty, names equal to /
 //!                                     extending / sharing prefixes with routes, prefixes and patterns)
 //!
+//!   c13 hammer --runs R --threads T --calls N --out F
+//!                                     real-parallel: for each layer kind T threads make N register_*/describe_* calls each
+//!                                     through ONE shared layer tree over counting probes (per-thread distinct names);
+//!                                     one {"ev":"reset","cfg"} + {"ev":"hammer","rows":[calls made],"seen":[probe totals]}
+//!                                     per run; TraceLayers!HammerOK judges the totals with the delivery function
+//!
 //! Program: {"cfg": Node, "ops": [Op]}
 //!   Node = {"t":"probe","id":n} | {"t":"stack","base":Node,"layers":[Layer]}            Stack::new(base).push(l1).push(l2)..
 //!        | {"t":"router","def":Node,"routes":[{"mask":"c|g|h|all","pat":cps,"to":Node}]}  RouterBuilder
@@ -166,6 +172,110 @@ impl Recorder for Probe {
     }
 }
 
+// ------------------------------------------------------------------------------------------- counting probes (hammer)
+/// One counter per (call kind, metric kind, delivered name); also the handle handed out for that name.
+#[derive(Default)]
+struct Tally {
+    n: AtomicI64,
+    incs: AtomicI64,
+}
+impl CounterFn for Tally {
+    fn increment(&self, _: u64) {
+        self.incs.fetch_add(1, Ordering::Relaxed);
+    }
+    fn absolute(&self, _: u64) {
+        self.incs.fetch_add(1, Ordering::Relaxed);
+    }
+}
+impl GaugeFn for Tally {
+    fn increment(&self, _: f64) {
+        self.incs.fetch_add(1, Ordering::Relaxed);
+    }
+    fn decrement(&self, _: f64) {
+        self.incs.fetch_add(1, Ordering::Relaxed);
+    }
+    fn set(&self, _: f64) {
+        self.incs.fetch_add(1, Ordering::Relaxed);
+    }
+}
+impl HistogramFn for Tally {
+    fn record(&self, _: f64) {
+        self.incs.fetch_add(1, Ordering::Relaxed);
+    }
+}
+
+const SHARDS: usize = 64;
+type TallyMap = std::collections::HashMap<String, Arc<Tally>>;
+/// slot = call kind (describe 0 / register 1) x metric kind (c g h)
+struct CountProbe {
+    id: i64,
+    shards: Vec<Mutex<[TallyMap; 6]>>,
+}
+
+impl CountProbe {
+    fn new(id: i64) -> CountProbe {
+        CountProbe { id, shards: (0..SHARDS).map(|_| Mutex::new(Default::default())).collect() }
+    }
+    fn tally(&self, slot: usize, name: &str) -> Arc<Tally> {
+        let sh = (hash_of(name) as usize) % SHARDS;
+        let mut g = self.shards[sh].lock().unwrap();
+        if let Some(t) = g[slot].get(name) {
+            t.n.fetch_add(1, Ordering::Relaxed);
+            return t.clone();
+        }
+        let t = Arc::new(Tally::default());
+        t.n.fetch_add(1, Ordering::Relaxed);
+        g[slot].insert(name.to_string(), t.clone());
+        t
+    }
+    fn dump(&self, out: &mut Vec<Value>) {
+        for sh in &self.shards {
+            let g = sh.lock().unwrap();
+            for (slot, m) in g.iter().enumerate() {
+                for (name, t) in m.iter() {
+                    let (o, kind) = (if slot < 3 { "describe" } else { "register" }, ["c", "g", "h"][slot % 3]);
+                    out.push(json!({"p": self.id, "o": o, "kind": kind, "name": cps(name), "n": t.n.load(Ordering::SeqCst), "incs": t.incs.load(Ordering::SeqCst)}));
+                }
+            }
+        }
+    }
+}
+
+struct CountRef(Arc<CountProbe>);
+
+impl std::ops::Deref for CountRef {
+    type Target = CountProbe;
+    fn deref(&self) -> &CountProbe {
+        &self.0
+    }
+}
+
+impl Recorder for CountRef {
+    fn describe_counter(&self, key: KeyName, _: Option<Unit>, _: SharedString) {
+        self.tally(0, key.as_str());
+    }
+    fn describe_gauge(&self, key: KeyName, _: Option<Unit>, _: SharedString) {
+        self.tally(1, key.as_str());
+    }
+    fn describe_histogram(&self, key: KeyName, _: Option<Unit>, _: SharedString) {
+        self.tally(2, key.as_str());
+    }
+    fn register_counter(&self, key: &Key, _: &Metadata<'_>) -> Counter {
+        Counter::from_arc(self.tally(3, key.name()))
+    }
+    fn register_gauge(&self, key: &Key, _: &Metadata<'_>) -> Gauge {
+        Gauge::from_arc(self.tally(4, key.name()))
+    }
+    fn register_histogram(&self, key: &Key, _: &Metadata<'_>) -> Histogram {
+        Histogram::from_arc(self.tally(5, key.name()))
+    }
+}
+
+thread_local! {
+    /// when set, `build` makes counting probes and registers them here
+    static COUNT_PROBES: std::cell::RefCell<Option<Vec<Arc<CountProbe>>>> = std::cell::RefCell::new(None);
+}
+
 // ------------------------------------------------------------------------------------------- building the real stack
 fn filter_layer(l: &Value) -> FilterLayer {
     let pats: Vec<String> = l["pats"].as_array().map(|a| a.iter().map(text).collect()).unwrap_or_default();
@@ -225,7 +335,20 @@ fn mask_of(m: &str) -> MetricKindMask {
 
 fn build(n: &Value, sh: &Arc<Shared>) -> BoxRec {
     match n["t"].as_str().unwrap_or("") {
-        "probe" => Box::new(Probe { id: n["id"].as_i64().unwrap(), regs: AtomicI64::new(0), sh: sh.clone() }),
+        "probe" => {
+            let id = n["id"].as_i64().unwrap();
+            let counting = COUNT_PROBES.with(|c| {
+                c.borrow_mut().as_mut().map(|v| {
+                    let p = Arc::new(CountProbe::new(id));
+                    v.push(p.clone());
+                    p
+                })
+            });
+            match counting {
+                Some(p) => Box::new(CountRef(p)),
+                None => Box::new(Probe { id, regs: AtomicI64::new(0), sh: sh.clone() }),
+            }
+        }
         "stack" => {
             let base = build(&n["base"], sh);
             let empty = vec![];
@@ -767,6 +890,98 @@ fn random_history(rng: &mut StdRng) -> Value {
     json!({"hist": hist, "ops": ops})
 }
 
+// ------------------------------------------------------------------------------------------- hammer (real parallel)
+fn pr(id: i64) -> Value {
+    json!({"t": "probe", "id": id})
+}
+fn fl(pats: &[&str], ci: bool, dfa: bool) -> Value {
+    json!({"t": "filter", "pats": pats.iter().map(|p| cps(p)).collect::<Vec<_>>(), "ci": ci, "dfa": dfa})
+}
+fn rt(mask: &str, pat: &str, to: Value) -> Value {
+    json!({"mask": mask, "pat": cps(pat), "to": to})
+}
+
+/// The layer kinds hammered: (label, configuration).  Names used: keep / drop / DROP / xdropx + ".t<thread>".
+fn hammer_configs() -> Vec<(&'static str, Value)> {
+    vec![
+        ("filter", json!({"t": "stack", "base": pr(0), "layers": [fl(&["drop"], false, true)]})),
+        ("filter_ci3", json!({"t": "stack", "base": pr(0), "layers": [fl(&["Drop", "nothing", "p.T9"], true, false)]})),
+        ("prefix", json!({"t": "stack", "base": pr(0), "layers": [{"t": "prefix", "p": cps("app")}]})),
+        ("router", json!({"t": "router", "def": pr(0), "routes": [rt("c", "keep", pr(1)), rt("all", "drop", pr(2)),
+                          rt("h", "DROP", pr(3)), rt("g", "drop.t1", pr(4))]})),
+        ("fanout", json!({"t": "fanout", "outs": [pr(1), pr(2)]})),
+        ("stack3", json!({"t": "stack",
+                          "base": {"t": "router", "def": pr(0), "routes": [rt("all", "app.keep", json!({"t": "fanout", "outs": [pr(1), pr(2)]}))]},
+                          "layers": [fl(&["xdropx"], false, true), {"t": "prefix", "p": cps("app")}, fl(&["DROP"], false, false)]})),
+    ]
+}
+
+fn hammer_run(label: &str, cfg: &Value, threads: usize, calls: usize, w: &mut Writer) -> (usize, f64) {
+    COUNT_PROBES.with(|c| *c.borrow_mut() = Some(vec![]));
+    let sh = Arc::new(Shared::default());
+    let top: BoxRec = build(cfg, &sh);
+    let top = &top;
+    let probes = COUNT_PROBES.with(|c| c.borrow_mut().take()).unwrap_or_default();
+    let barrier = Arc::new(std::sync::Barrier::new(threads));
+    let t0 = std::time::Instant::now();
+    let results: Vec<(Vec<String>, Vec<[i64; 6]>)> = std::thread::scope(|scope| {
+    let hs: Vec<_> = (0..threads).map(|t| {
+        let barrier = barrier.clone();
+        scope.spawn(move || {
+            static MD: Metadata<'static> = Metadata::new("c13_hammer", Level::INFO, None);
+            let names: Vec<String> = ["keep", "drop", "DROP", "xdropx"].iter().map(|b| format!("{b}.t{t}")).collect();
+            let keys: Vec<Key> = names.iter().map(|n| Key::from_name(n.clone())).collect();
+            // rows[name][slot]: calls made
+            let mut made = vec![[0i64; 6]; names.len()];
+            barrier.wait();
+            for i in 0..calls {
+                // the same key twice in a row (hot metric), then the next key; the metric kind rotates more slowly
+                let k = (i / 2) % keys.len();
+                let kind = (i / (2 * keys.len())) % 3;
+                match kind {
+                    0 => top.register_counter(&keys[k], &MD).increment(1),
+                    1 => top.register_gauge(&keys[k], &MD).set(1.0),
+                    _ => top.register_histogram(&keys[k], &MD).record(1.0),
+                }
+                made[k][3 + kind] += 1;
+                if i % 16 == 5 {
+                    let kn = KeyName::from(names[k].clone());
+                    match kind {
+                        0 => top.describe_counter(kn, None, "".into()),
+                        1 => top.describe_gauge(kn, Some(Unit::Count), "d".into()),
+                        _ => top.describe_histogram(kn, None, "".into()),
+                    }
+                    made[k][kind] += 1;
+                }
+            }
+            (names, made)
+        })
+    }).collect();
+    hs.into_iter().map(|h| h.join().expect("harness: hammer thread")).collect()
+    });
+    let mut rows = vec![];
+    let mut total = 0usize;
+    for (names, made) in results {
+        for (k, name) in names.iter().enumerate() {
+            for slot in 0..6 {
+                if made[k][slot] > 0 {
+                    total += made[k][slot] as usize;
+                    let (o, kind) = (if slot < 3 { "describe" } else { "register" }, ["c", "g", "h"][slot % 3]);
+                    rows.push(json!({"o": o, "kind": kind, "name": cps(name), "calls": made[k][slot]}));
+                }
+            }
+        }
+    }
+    let secs = t0.elapsed().as_secs_f64();
+    let mut seen = vec![];
+    for p in &probes {
+        p.dump(&mut seen);
+    }
+    w.put(&json!({"ev": "reset", "cfg": cfg}));
+    w.put(&json!({"ev": "hammer", "layer": label, "threads": threads, "rows": rows, "seen": seen}));
+    (total, secs)
+}
+
 fn main() {
     let args = vh::Args::parse();
     let mode = args.pos.first().map(|s| s.as_str()).unwrap_or("record").to_string();
@@ -788,6 +1003,33 @@ fn main() {
                 let p = if i % 4 == 3 { random_history(&mut rng) } else { random_program(&mut rng) };
                 run_program(&p, &mut w, &mut st);
             }
+        }
+        "hammer" => {
+            let runs: usize = args.num("runs", 2);
+            let threads: usize = args.num("threads", 8);
+            let calls: usize = args.num("calls", 100_000);
+            let only = args.get("only").map(|s| s.to_string());
+            let (mut total, mut secs, mut nruns) = (0usize, 0f64, 0usize);
+            for (label, cfg) in hammer_configs() {
+                if only.as_deref().map(|o| o != label).unwrap_or(false) {
+                    continue;
+                }
+                // the filter kinds get twice the runs: they are where a per-call memo would live
+                let r = if label.starts_with("filter") { runs * 2 } else { runs };
+                for _ in 0..r {
+                    let (t, s) = hammer_run(label, &cfg, threads, calls, &mut w);
+                    total += t;
+                    secs += s;
+                    nruns += 1;
+                }
+            }
+            st.programs = nruns;
+            st.events = 2 * nruns;
+            st.calls = total;
+            println!("{}", json!({"mode": mode, "seed": seed, "programs": nruns, "runs": nruns, "threads": threads, "calls": total,
+                "lines": w.lines, "secs": (secs * 1000.0).round() / 1000.0}));
+            w.finish();
+            return;
         }
         "replay" => {
             let inp = args.get("in").expect("--in");
